@@ -273,12 +273,19 @@ Fixpoint fill (fuel : nat) (ex : list (Z * Z)) (bl : Q) (last ts_end pos cnt : Z
       end
   end.
 
-Fixpoint fill_all (ex : list (Z * Z)) (last : Z) (ss : list (Z * Z * Q)) (cnt : Z) : option (list meas) :=
+(* end of the last measure of a list (d for the empty list) *)
+Definition last_end_m (ms : list meas) (d : Z) : Z :=
+  match ms with [] => d | m :: r => m_end (List.last r m) end.
+
+(* the position is carried from one signature's stretch to the next: an existing measure that
+   runs across a signature change is not covered a second time *)
+Fixpoint fill_all (ex : list (Z * Z)) (last : Z) (ss : list (Z * Z * Q)) (cnt pos : Z) : option (list meas) :=
   match ss with
   | [] => Some []
   | (a, b, bl) :: ss' =>
-    r <- fill (S (Z.to_nat (b - a))) ex bl last b a cnt ;;
-    r' <- fill_all ex last ss' (snd r) ;;
+    let p0 := Z.max a pos in
+    r <- fill (S (Z.to_nat (b - p0))) ex bl last b p0 cnt ;;
+    r' <- fill_all ex last ss' (snd r) (last_end_m (fst r) p0) ;;
     Some (fst r ++ r')
   end.
 
@@ -289,7 +296,7 @@ Definition add_measures (div : Z) (tsigs : list (Z * Z * Z)) (first last : Z) (e
   match tsigs with
   | [] => Some (map (fun m => (fst m, snd m, 0, true)) ex)   (* warning, nothing added *)
   | _ => if first =? last then Some (map (fun m => (fst m, snd m, 0, true)) ex)
-         else fill_all ex last (stretches div tsigs first last) 1
+         else fill_all ex last (stretches div tsigs first last) 1 first
   end.
 
 (* ---------------------------------------------------------------------- *)
